@@ -384,8 +384,20 @@ def c_order(F, res, rule="C-ORDER", specs=ORDER_SPECS):
                 bad.append("%s: the code says %s, the property says %s" % (ordering.describe(sc, lits), v, want))
         if ex is not None and ex != all_pass:
             bad.append("when every entry passes the result is %s instead of %s" % (ex, all_pass))
+        # a verdict reached before any entry is looked at holds for every content of the iterated map, the empty one included:
+        # it has to be the vacuous verdict unless the test that leads to it looks at the iterated map
+        undecided = []
+        for v, params in ep.prefix_returns():
+            if v == all_pass:
+                continue
+            if ep.iter_arg in params:
+                undecided.append("an early return guarded by a test of the iterated operand")
+            else:
+                bad.append("the result is %s before any entry is looked at, decided by a test that does not look at the iterated operand: with nothing to compare the property says %s" % (v, all_pass))
         if bad:
             res.add([finding(rule, key, w, "%s - %s" % (text, "; ".join(bad[:3])))])
+        elif undecided:
+            res.add([assumption(rule, key, w, "%s: not decided" % undecided[0])])
         else:
             res.add([ok(rule, key, w, "%d order types of (amount, other amount, 0) inside the stated domain agree with: %s" % (checked, text))])
 
